@@ -135,6 +135,9 @@ CHECKS = {
  'C42': (['asan'], 'differential monitor inside one process: every C function of cwrapper.h is called on handles holding the same objects as the C++ call next to it (result tree or error code vs exception), wrapped in a try/catch that reports exceptions crossing the C boundary; container scripts vs Python list / set / dict models; Expression operators vs core functions; ASan+UBSan with assertions not throwing (a C caller links a release build)',
          '52 function wrappers, in-place use, subs2, set wrappers, parse / str / number setters, eq / neq / hash, free_symbols, get_args on operands incl. 0, oo, zoo, nan, floats; scripts of 6-14 container operations incl. out-of-range indices; 13 Expression operators.',
          'dense / sparse matrix, ntheory and lambda / LLVM visitor parts of the C API are not driven.', 'DESIGN.md 3/C42'),
+ 'C41': (['tsan'], 'race detector + sequential-equivalence monitor: gcc ThreadSanitizer build with WITH_SYMENGINE_THREAD_SAFE; 2-8 threads work on the same freshly built expression objects with schedule perturbation at the library\'s hook-H3 sites; every concurrent result is compared with the same operation sequence run sequentially on a second copy',
+         'Cases of 3-8 shared expressions x 2-8 threads x 30-200 operations (hash, str, eq, compare, diff, subs, expand, add, mul, pow, free_symbols, get_args on random pairs); the objects are fresh in the concurrent phase so lazily cached state is initialised under contention.',
+         'Explores the interleavings the scheduler and the perturbation hook produce, not all of them; evidence reports threads and concurrent operations actually run.', 'DESIGN.md 3/C41'),
 }
 
 def main():
